@@ -19,8 +19,9 @@ RULE = ("all 11 test functions in 19 parameter modes (spike x2 methods, attenuat
         "judged by the boundary client AND by icontract postconditions on the real function: no exception, one flag "
         "per element in the input's shape, alphabet {1,2,3,4,9}, nothing masked, arguments unmodified; then re-run "
         "with all arrays read-only (write trap) and, at the end of a shuffled interleaving of all functions, "
-        "re-issued and compared with the recorded flags (history independence); pointwise tests also under a random "
-        "permutation.  distinct = (mode, length class, missing marker, carrier, set of flags); trivial = n>=3, "
+        "re-issued and compared with the recorded flags (history independence); arrays edited in place and passed "
+        "again as the same objects must give what fresh copies give (no identity-keyed state); pointwise tests also "
+        "under a random permutation.  distinct = (mode, length class, missing marker, carrier, set of flags); trivial = n>=3, "
         "nothing missing, all GOOD.")
 ASSUMPTIONS = ["None / masked elements only for functions that document missing-data handling; "
                "pressure_increasing_test gets NaN only", "parameters are valid for the function (rejections are C03/C09/C10/C12/C14's business)"]
@@ -127,6 +128,7 @@ def run(ctx) -> None:
     ctx.require("c01.write_trap_reruns", 1000)
     ctx.require("c01.history_replays", 100)
     ctx.require("c01.permutation_pairs", 100)
+    ctx.require("c01.buffer_reuse_pairs", 100)
     M = modes()
     names = sorted(M)
     lengths = ctx.pick([0, 1, 2, 3, 4, 5, 8, 17, 64], [0, 1, 2, 3, 4, 5, 8, 17, 64, 257, 1000])
@@ -200,6 +202,28 @@ def run(ctx) -> None:
                 ctx.violation(f"C01:not-repeatable:{fname}", {"kind": "call", **case, "first": o.brief(), "second": o2.brief()})
         except Exception as e:  # noqa: BLE001
             ctx.notes.append(f"freeze failed: {e!r}")
+        # buffer reuse: the caller edits its own arrays in place and calls again with the SAME objects
+        # (streaming use); the result must equal that of a call on fresh copies holding the same values
+        if fl is not None and n >= 2 and how == "ndarray" and rng.random() < 0.5:
+            kwb = {k: (v.copy() if isinstance(v, np.ndarray) else v) for k, v in kw.items()}
+            client.invoke(fname, kwb, check_purity=False)  # first use of these very objects
+            for k, v in kwb.items():
+                if isinstance(v, np.ndarray) and v.flags.writeable and k in ("inp", "tinp", "zinp", "lon", "lat"):
+                    if v.dtype.kind == "M":
+                        v[n // 2:] += np.timedelta64(rng.choice([1, 86400, 3600 * 30]), "s")
+                    elif v.dtype.kind == "f":
+                        v[rng.randrange(n)] = rng.choice(pool)
+                        v[::2] += rng.choice([0.25, -1.0, 2.0])
+            fresh = {k: (v.copy() if isinstance(v, np.ndarray) else v) for k, v in kwb.items()}
+            o_same, o_fresh = client.invoke(fname, kwb, check_purity=False), client.invoke(fname, fresh, check_purity=False)
+            ctx.count("c01.buffer_reuse_pairs")
+            a = None if o_same.kind != "return" else o_same.flags.tolist()
+            b = None if o_fresh.kind != "return" else o_fresh.flags.tolist()
+            if a != b:
+                ctx.violation(f"C01:stale-state-after-in-place-edit:{fname}",
+                              {"kind": "history", **case, "note": "same array objects edited in place and passed again",
+                               "same_objects": o_same.brief(), "fresh_copies": o_fresh.brief(),
+                               "edited_kwargs": core.jsonable(fresh) if n <= 17 else None})
         if fl is not None and n <= 17 and rng.random() < 0.2:
             history.append((mname, kw, fl.tolist(), case))
         # permutation relation for pointwise tests: f(pi x) = pi f(x)
